@@ -722,6 +722,11 @@ func oracle(c core.Case, out []string) []core.Finding {
 			if !found {
 				add("lightrpc.Tx.accepts-tx-not-in-block", fmt.Sprintf("Tx relayed a proof for %s which is not a transaction of block %d", m["pdata"], h))
 			}
+			// the relayed bytes are the transaction the proof is for (the proven leaf; a restated
+			// (index,total) cannot change which bytes are proven)
+			if !bytes.Equal(unhx(m["rtx"]), unhx(m["pdata"])) {
+				add("lightrpc.Tx.relays-tx-other-than-proven", fmt.Sprintf("Tx relayed the bytes %s under an inclusion proof for %s (block %d): the relayed transaction is not the proven one, and nothing ties it to a verified block", m["rtx"], m["pdata"], h))
+			}
 		}
 		if accepted && kind == "abci" {
 			h := int64(atoi(m["ht"]))
@@ -767,6 +772,16 @@ func oracle(c core.Case, out []string) []core.Finding {
 		}
 	}
 	return fs
+}
+
+// otherBlockRoot: the height (other than h) whose data hash is root, or 0
+func otherBlockRoot(ch *chain, h int64, root []byte) int64 {
+	for k := int64(1); k <= int64(ch.spec.n); k++ {
+		if k != h && ch.lbs[k] != nil && bytes.Equal(ch.lbs[k].DataHash, root) {
+			return k
+		}
+	}
+	return 0
 }
 
 // servedOracle: every inclusion proof the full node's RPC serves verifies against the data hash of
@@ -815,6 +830,9 @@ func servedOracle(ch *chain, m map[string]string, o string) []core.Finding {
 		}
 		tp := types.TxProof{RootHash: unhx(f[2]), Data: types.Tx(unhx(f[3])), Proof: merkle.Proof{Total: total, Index: pidx, LeafHash: unhx(f[6]), Aunts: aunts}}
 		switch {
+		case !bytes.Equal(tp.RootHash, lb.DataHash) && otherBlockRoot(ch, h, tp.RootHash) > 0:
+			add("rpccore.TxSearch.proof-from-other-block", fmt.Sprintf("%s: the proof served for the result at height %d index %d was built from block %d (root %s = that block's data hash, proven tx %q); this block's data hash is %X and the transaction there is %q",
+				where, h, idx, otherBlockRoot(ch, h, tp.RootHash), f[2], tp.Data, lb.DataHash, ch.txsAt[h][idx]))
 		case !bytes.Equal(tp.RootHash, lb.DataHash) || tp.Validate(lb.DataHash) != nil:
 			add("rpccore.TxSearch.proof-does-not-verify-against-its-block", fmt.Sprintf("%s: the proof served for the result at height %d index %d (root %s) does not validate against that block's data hash %X", where, h, idx, f[2], lb.DataHash))
 		case !bytes.Equal(tp.Data, ch.txsAt[h][idx]):
@@ -828,10 +846,23 @@ func servedOracle(ch *chain, m map[string]string, o string) []core.Finding {
 
 // searchCall renders a tx_search answer (one stx line per listed transaction) and the call line
 func (g *gen) searchCall(q string, prove int, mi mutInfo, marg int) []string {
+	// the handler under test may panic (that is a result for Exec and the oracle, not for the generator)
+	safe := func() (res *ctypes.ResultTxSearch) {
+		defer func() {
+			if r := recover(); r != nil {
+				res = nil
+			}
+		}()
+		res, _ = g.be.TxSearch(context.Background(), q, prove == 1, nil, nil, "asc")
+		return res
+	}
 	g.be.p = &plan{mut: "none"}
-	hon, _ := g.be.TxSearch(context.Background(), q, prove == 1, nil, nil, "asc")
+	hon := safe()
 	g.be.p = &plan{mut: mi.name, marg: marg}
-	served, _ := g.be.TxSearch(context.Background(), q, prove == 1, nil, nil, "asc")
+	served := safe()
+	if hon == nil || served == nil {
+		hon, served, mi = nil, nil, mutInfo{"none", "none"}
+	}
 	if mi.name != "none" && jsonOf(hon) == jsonOf(served) {
 		mi = mutInfo{"none", "none"}
 	}
@@ -1258,6 +1289,8 @@ func scriptedCases(emit func(core.Case)) {
 			{"bcinfo", "min=2 max=4", "BlockMeta.BlockID.PartSetHeader", 1}, {"bcinfo", "min=0 max=0", "none", 0}},
 		"tx-bound-to-proof-and-request": {{"tx", "hash=" + hx(tx.Hash()) + " prove=1", "none", 0}, {"tx", "hash=" + hx(tx.Hash()) + " prove=1", "Tx", 3},
 			{"tx", "hash=" + hx(tx.Hash()) + " prove=1", "Hash", 3}, {"tx", "hash=" + hx(tx.Hash()) + " prove=1", "Tx:other-tx", 2},
+			{"tx", "hash=" + hx(tx.Hash()) + " prove=1", "Proof:of-other-tx", 0}, {"tx", "hash=" + hx(tx.Hash()) + " prove=1", "Proof:of-other-tx", 1},
+			{"tx", "hash=" + hx(tx.Hash()) + " prove=1", "Proof:of-other-tx", 2}, {"tx", "hash=" + hx(tx.Hash()) + " prove=1", "Proof:of-other-tx", 3},
 			{"tx", "hash=" + hx(tx.Hash()) + " prove=1", "Index", 1}, {"tx", "hash=" + hx(tx.Hash()) + " prove=1", "Proof.Data+Tx+Hash", 1},
 			{"tx", "hash=" + hx(tx.Hash()) + " prove=0", "Tx", 1}},
 		"abci-keyless-operators": {{"abci", "path=" + path + " data=" + hx([]byte("genesis")) + " qh=2", "none", 0},
